@@ -1364,6 +1364,9 @@ class _CallMixin:
             self.ref(f'{f.cls.name}._parse_value: raw text the token type cannot represent', st, fr)
         if f.cls is self.token_cls and f.name == '_update_raw_text' and args:
             return [(NoneV(), self.mut('text', _own(args[0]), 'token text', st, fr))]
+        if f.cls is None and f.name == 'drop_cached_views' and _only_pops_instance_dict(f):
+            # forgets memoised views (instance.__dict__.pop(..)): a cache write, no document effect; reflection (vars / __mro__) is not modelled
+            return [(NoneV(), st)]
         dirty = st.fx is not None
         try:
             key = (id(f), tuple(args), tuple(sorted(kwargs.items())), dirty)
@@ -2075,6 +2078,18 @@ def _load_of(t: ast.AST) -> ast.AST:
     if isinstance(t, ast.Subscript):
         return ast.Subscript(value=t.value, slice=t.slice, ctx=ast.Load())
     return t
+
+
+def _only_pops_instance_dict(f: FuncInfo) -> bool:
+    """the body of the helper contains no call other than <instance>.__dict__.pop(..), vars(..), type(..), isinstance(..), .values()/.items()"""
+    for x in ast.walk(f.node):
+        if isinstance(x, ast.Call):
+            t = norm(x.func)
+            if not (t in ('vars', 'type', 'isinstance') or t.endswith('.__dict__.pop') or t.endswith('.values') or t.endswith('.items')):
+                return False
+        if isinstance(x, (ast.Assign, ast.AugAssign, ast.Delete)):
+            return False
+    return True
 
 
 class EffectInterp(Interp, _EvalMixin, _ExprMixin, _CallMixin, _StmtMixin):
